@@ -389,3 +389,50 @@ def rsp_roundtrip(args):
         with open(p, "w") as f:
             f.write(" ".join(util.shell_quote(a) for a in args))
         return util.expand_ninja_response_files(["@" + p])
+
+
+# ---- variable-font configurations: axes and master positions through write -> load
+
+
+def gen_masters(rng):
+    tags = rng.sample(["wght", "opsz", "wdth", "slnt", "GRAD"], rng.choice([1, 2, 2, 3]))
+    rng.shuffle(tags)  # declaration order need not be alphabetical
+    axes = [(t, t.upper() + " axis", rng.choice([0, 14, 100, 400])) for t in tags]
+    n = rng.randint(2, 3)
+    masters = []
+    for m in range(n):
+        pos = {t: (d if m == 0 else d + rng.choice([1, 50, 300]) * (m + (i + 1) * 0.5)) for i, (t, _, d) in enumerate(axes)}
+        masters.append(("m%d" % m, "Style%d" % m, pos))
+    return {"axes": axes, "masters": masters}
+
+
+def masters_round_trip(axes, masters):
+    from nanoemoji import config as C
+
+    with tempfile.TemporaryDirectory(prefix="verif_cfg_") as d:
+        toml_text = 'output_file = "VF.ttf"\ncolor_format = "glyf_colr_1"\n'
+        for tag, name, default in axes:
+            toml_text += f'[axis.{tag}]\nname = "{name}"\ndefault = {default}\n'
+        for name, style, pos in masters:
+            os.makedirs(os.path.join(d, name))
+            open(os.path.join(d, name, "emoji_u1f600.svg"), "w").write("<svg/>")
+            toml_text += f'[master.{name}]\nstyle_name = "{style}"\nsrcs = ["{name}/*.svg"]\n[master.{name}.position]\n'
+            for tag, v in pos.items():
+                toml_text += f"{tag} = {v}\n"
+        p = Path(d) / "c.toml"
+        p.write_text(toml_text)
+        _flags_reset()
+        first = C.load(p)
+        p2 = Path(d) / "resolved.toml"
+        C.write(p2, first)
+        second = C.load(p2)
+    sem = lambda c: (
+        sorted((a.axisTag, a.name, a.default) for a in c.axes),
+        [(m.name, m.style_name, sorted((ap.axisTag, ap.position) for ap in m.position)) for m in c.masters],
+    )
+    given = (
+        sorted((t, n, float(dflt)) for t, n, dflt in axes),
+        [(n, s, sorted((t, float(v)) for t, v in pos.items())) for n, s, pos in masters],
+    )
+    as_float = lambda s_: (sorted((t, n, float(dflt)) for t, n, dflt in s_[0]), [(n, s, sorted((t, float(v)) for t, v in pos)) for n, s, pos in s_[1]])
+    return {"loaded_is_what_was_written": as_float(sem(first)) == given, "reloaded_equals_loaded": sem(first) == sem(second), "default_master": first.default().name == second.default().name}
